@@ -169,7 +169,7 @@ def check_key(k, where, **kw):
 @st.composite
 def strat_generate(draw, tier):
     # DSA domain generation (seconds to a minute) and ElGamal safe primes are rare in the quick tier
-    slow = draw(st.integers(0, 63 if tier == "quick" else 7)) == 0
+    slow = draw(st.integers(0, 63 if tier == "quick" else 11)) == 0
     if slow:
         what = draw(st.sampled_from(["dsa", "elgamal"]))
     else:
@@ -725,7 +725,7 @@ def run_fuzz_import(case, rec):
 
 
 CHECKS = [
-    Check("generate", run=run_generate, strategy=strat_generate, examples=(128, 2500), shards=(16, 16),
+    Check("generate", run=run_generate, strategy=strat_generate, examples=(128, 1200), shards=(16, 16),
           rule="generate() with entropy tapes: invariants, exact size, FIPS 186-4 margins, determinism"),
     Check("construct", run=run_construct, strategy=strat_construct, examples=(4000, 60000), shards=(16, 16),
           rule="construct() with valid shapes and single-fault corruptions: refused with ValueError, or the returned key satisfies all invariants"),
